@@ -28,6 +28,7 @@ import (
 	aeadsubtle "github.com/tink-crypto/tink-go/v2/aead/subtle"
 	"github.com/tink-crypto/tink-go/v2/aead/xaesgcm"
 	"github.com/tink-crypto/tink-go/v2/aead/xchacha20poly1305"
+	"github.com/tink-crypto/tink-go/v2/core/registry"
 	"github.com/tink-crypto/tink-go/v2/insecurecleartextkeyset"
 	"github.com/tink-crypto/tink-go/v2/insecuresecretdataaccess"
 	"github.com/tink-crypto/tink-go/v2/internal/internalapi"
@@ -46,6 +47,7 @@ import (
 	ccpb "github.com/tink-crypto/tink-go/v2/proto/chacha20_poly1305_go_proto"
 	commonpb "github.com/tink-crypto/tink-go/v2/proto/common_go_proto"
 	hmacpb "github.com/tink-crypto/tink-go/v2/proto/hmac_go_proto"
+	kmsepb "github.com/tink-crypto/tink-go/v2/proto/kms_envelope_go_proto"
 	tinkpb "github.com/tink-crypto/tink-go/v2/proto/tink_go_proto"
 	xaespb "github.com/tink-crypto/tink-go/v2/proto/x_aes_gcm_go_proto"
 	xccpb "github.com/tink-crypto/tink-go/v2/proto/xchacha20_poly1305_go_proto"
@@ -316,6 +318,17 @@ func (s *Spec) KeyData() (*tinkpb.KeyData, error) {
 			AesCtrKey: &ctrpb.AesCtrKey{Params: &ctrpb.AesCtrParams{IvSize: uint32(s.IVSize)}, KeyValue: s.Key[:s.AESLen]},
 			HmacKey:   &hmacpb.HmacKey{Params: &hmacpb.HmacParams{Hash: protoHash(s.Hash), TagSize: uint32(s.TagSize)}, KeyValue: s.Key[s.AESLen:]},
 		}
+	case "env":
+		// a KmsEnvelopeAeadKey of the keyset: a key type that has only a key manager (its primitive is
+		// wrapped by aead_factory's fullAEADPrimitiveAdapter); the key-encryption AEAD is served by the
+		// harness KMS client below, the URI carries its key description
+		url, m = "type.googleapis.com/google.crypto.tink.KmsEnvelopeAeadKey", &kmsepb.KmsEnvelopeAeadKey{
+			Params: &kmsepb.KmsEnvelopeAeadKeyFormat{KekUri: kmsURIPrefix + hx.H([]byte(s.KEK.String())), DekTemplate: DEKs[s.DEK].Tmpl()}}
+		v, err := proto.Marshal(m)
+		if err != nil {
+			return nil, err
+		}
+		return &tinkpb.KeyData{TypeUrl: url, Value: v, KeyMaterialType: tinkpb.KeyData_REMOTE}, nil
 	default:
 		return nil, fmt.Errorf("scheme %s", s.Scheme)
 	}
@@ -325,6 +338,27 @@ func (s *Spec) KeyData() (*tinkpb.KeyData, error) {
 	}
 	return &tinkpb.KeyData{TypeUrl: url, Value: v, KeyMaterialType: tinkpb.KeyData_SYMMETRIC}, nil
 }
+
+// verifKMS is the harness "remote KMS": the key URI is verif-kms://<hex of a key description>,
+// GetAEAD builds that AEAD (any plain scheme or "pad").
+const kmsURIPrefix = "verif-kms://"
+
+type verifKMS struct{}
+
+func (verifKMS) Supported(uri string) bool { return strings.HasPrefix(uri, kmsURIPrefix) }
+
+func (verifKMS) GetAEAD(uri string) (tink.AEAD, error) {
+	if !strings.HasPrefix(uri, kmsURIPrefix) {
+		return nil, fmt.Errorf("uri")
+	}
+	k, err := ParseSpec(strings.Split(string(hx.UH(uri[len(kmsURIPrefix):])), "|"))
+	if err != nil {
+		return nil, err
+	}
+	return k.Build()
+}
+
+func init() { registry.RegisterKMSClient(verifKMS{}) }
 
 // ProtoKey is the keyset entry of the key.
 func (s *Spec) ProtoKey(status tinkpb.KeyStatusType) (*tinkpb.Keyset_Key, error) {
